@@ -56,7 +56,7 @@ func init() {
 }
 
 func c12Generate(c *mon.Ctx) {
-	concBatches(c, c.N(6, 300), func(seed uint64) any { return &c12Case{Conc: seed} })
+	concBatches(c, c.NConc(6, 300), func(seed uint64) any { return &c12Case{Conc: seed} })
 
 	p := oracle.P
 	st := gen.Structured(p)
@@ -209,7 +209,7 @@ func c12Generate(c *mon.Ctx) {
 	})
 
 	// and again at the end of the shard, when the process has a history behind it
-	concBatches(c, c.N(4, 200), func(seed uint64) any { return &c12Case{Conc: seed + 50000} })
+	concBatches(c, c.NConc(4, 200), func(seed uint64) any { return &c12Case{Conc: seed + 50000} })
 }
 
 func c12RunMove(c *mon.Ctx, cs *c12Case) {
